@@ -2,7 +2,9 @@
    validate the translator by running its output against the implementation. *)
 From Coq Require Import Extraction ExtrOcamlBasic QArith List.
 From VOPy Require Import QVec Cone.
-From VOPyGen Require Import Gen_order.
+From VOPy Require Import LoopPareto.
+From VOPyGen Require Import Gen_order Gen_pareto.
 Extraction Language OCaml.
 Extraction "modelgen.ml"
-  Cone.eye Gen_order.gen_is_inside_row Gen_order.gen_is_inside Gen_order.gen_dominates.
+  Cone.eye Gen_order.gen_is_inside_row Gen_order.gen_is_inside Gen_order.gen_dominates
+  Gen_pareto.gen_get_pareto_set Gen_pareto.gen_get_pareto_set_naive.
